@@ -83,7 +83,8 @@ def parse_spec(spec):
 # vggg / vvggg: three consecutive reader advances (partial, to the block boundary, next read) - added after the seeded change
 # C19-rpos-inc-iov-off-not-reset was missed by every pattern with at most two reader steps
 QUICK = "x:8/2 xx:8/2 vvg:8/2 vva:8/2 vvvg:8/3 vvva:8/3 vvvg!:8/3 vgvg:8/3 vvg:10/2 vva:12/2 vvg2:8/3 vggg:8/2 vvggg:8/3"
-THOROUGH = QUICK + " vvvg:8/2 vvvvg:8/3 vvva:8/2 vgvg:8/2 vvvvg:8/2 vvvva:8/3 vvvvvg:8/3 vvvgvg:8/3 vvvgvg!:8/3 vgvvg:8/3 vvvg:10/2 vvvg:12/2 vvvvvg:6/2"
+# vvvgvg (6 steps, ring 8/3) and its late-round twin: no verdict in 1500 s on a loaded machine [measured] -> withdrawn; 5-step patterns are the bound
+THOROUGH = QUICK + " vvvg:8/2 vvvvg:8/3 vvva:8/2 vgvg:8/2 vvvvg:8/2 vvvva:8/3 vvvvvg:8/3  vgvvg:8/3 vvvg:10/2 vvvg:12/2 vvvvvg:6/2"
 
 
 def jobs(tier):
